@@ -73,6 +73,7 @@ def extract() -> tuple[dict[str, Any], list[str]]:
     # times in 1/8 s so that they are exact naturals
     safe("requestTimeout8", lambda: _exact8(SP.REQUEST_TIMEOUT))
     safe("maxMeta", lambda: int(SP.MAX_META_SIZE))
+    safe("writeChunk", lambda: int(SP.WRITE_CHUNK_SIZE))
     safe("maxHeader", lambda: int(CP.MAX_RESPONSE_HEADER_SIZE))
     safe("statusCodes", lambda: sorted(int(s.value) for s in status.StatusCode))
 
@@ -150,7 +151,7 @@ def _exact8(x: float) -> int:
     return int(v)
 
 
-NAT_ITEMS = ["maxRequest", "maxBody", "maxRedirects", "defaultPort", "defaultMaxFileSize", "requestTimeout8", "maxMeta", "maxHeader",
+NAT_ITEMS = ["maxRequest", "maxBody", "maxRedirects", "defaultPort", "defaultMaxFileSize", "requestTimeout8", "maxMeta", "writeChunk", "maxHeader",
              "cleanupPeriod", "cleanupAge"]
 BOOL_ITEMS = ["evictOnlyRefilled", "limiterAtomic", "wrapperUsesSendall"]
 NATLIST_ITEMS = ["statusCodes", "recvSizes"]
